@@ -1278,11 +1278,24 @@ func (m *model) runReleaseLockowner(f *inflight) outcome {
 	if lo == nil {
 		return f.fin(ok, "unknown lock-owner: nothing to release")
 	}
+	m.mark(fmt.Sprintf("release_lockowner_with_%d_files", len(lo.files)))
 	for _, lf := range lo.files {
 		if m.ownerHolds(lf.of.leaf, lockKey(conf, lo.key)) {
 			m.mark("locks_held")
 			o := f.fin(nfsv4.NFS4ERR_LOCKS_HELD, "lock-owner still holds bytes")
 			o.class = "C20"
+			// A refused RELEASE_LOCKOWNER releases nothing: the
+			// lock-owner files that hold no bytes stay as well.
+			o.pure = true
+			if len(lo.files) > 1 {
+				m.mark("release_lockowner_refused_with_several_files")
+				for _, other := range lo.files {
+					if !m.ownerHolds(other.of.leaf, lockKey(conf, lo.key)) {
+						m.mark("release_lockowner_refused_while_one_file_holds_nothing")
+						break
+					}
+				}
+			}
 			return o
 		}
 	}
